@@ -404,7 +404,7 @@ class SchemaLoaderWiki(SchemaLoader):
 
         tag_entry = self._schema._create_tag_entry(node_name, key_class)
 
-        if node_desc:
+        if node_desc and node_desc.strip():
             tag_entry.description = node_desc.strip()
 
         for attribute_name, attribute_value in node_attributes.items():
